@@ -75,6 +75,11 @@ var opaqueModels = map[string]bool{
 	"(*github.com/go-logfmt/logfmt.Decoder).Value":      true,
 	"(*github.com/go-logfmt/logfmt.Decoder).Err":        true,
 	"strings.NewReader":                                 true,
+	"(*text/scanner.Scanner).Peek":                      true,
+	"(*text/scanner.Scanner).Next":                      true,
+	"(*text/scanner.Scanner).Scan":                      true,
+	"(*text/scanner.Scanner).TokenText":                 true,
+	"(*text/scanner.Scanner).Pos":                       true,
 	"(*regexp.Regexp).FindStringSubmatch":               true,
 	"(*regexp.Regexp).SubexpNames":                      true,
 }
@@ -188,6 +193,35 @@ func init() {
 		}
 		return []Val{after, found}
 	})
+	decode := func(name string) modelFn {
+		return func(ex *Exec, a []Val, st *State, _ *types.Signature) []Val {
+			s := tm(a[0])
+			r, size := UF(name+".rune", SInt, s), UF(name+".size", SInt, s)
+			if !s.hasBound {
+				ex.fact(nil, And(Le(IntT(0), size), Le(size, IntT(4)), Le(size, ex.slen(s)), Eq(Eq(size, IntT(0)), Eq(ex.slen(s), IntT(0))), Le(IntT(0), r)))
+			}
+			return []Val{r, size}
+		}
+	}
+	reg("unicode/utf8.DecodeRuneInString", "(rune, size) are uninterpreted functions of the string with 0 <= size <= min(4, len(s)), size == 0 iff s is empty, rune >= 0", decode("utf8.decode"))
+	reg("unicode/utf8.DecodeLastRuneInString", "(rune, size) are uninterpreted functions of the string with 0 <= size <= min(4, len(s)), size == 0 iff s is empty, rune >= 0", decode("utf8.decodeLast"))
+	reg("unicode/utf8.RuneCountInString", "uninterpreted function with 0 <= n <= len(s)", func(ex *Exec, a []Val, st *State, _ *types.Signature) []Val {
+		s := tm(a[0])
+		n := UF("utf8.runeCount", SInt, s)
+		if !s.hasBound {
+			ex.fact(nil, And(Le(IntT(0), n), Le(n, ex.slen(s))))
+		}
+		return []Val{n}
+	})
+	reg("strings.Repeat", "uninterpreted function of (s, count) with len == len(s)*count for count >= 0 (a negative count panics: not checked)", func(ex *Exec, a []Val, st *State, _ *types.Signature) []Val {
+		return []Val{UF("str.repeat", SStr, tm(a[0]), tm(a[1]))}
+	})
+	for _, n := range []string{"IsSpace", "IsLetter", "IsDigit", "IsUpper", "IsLower", "IsPunct", "IsPrint"} {
+		name := n
+		reg("unicode."+name, "uninterpreted predicate of the rune", func(ex *Exec, a []Val, st *State, _ *types.Signature) []Val {
+			return []Val{UF("unicode."+name, SBool, tm(a[0]))}
+		})
+	}
 	reg("strings.Compare", "uninterpreted function", func(ex *Exec, a []Val, st *State, _ *types.Signature) []Val {
 		return []Val{UF("str.compare", SInt, tm(a[0]), tm(a[1]))}
 	})
@@ -585,6 +619,9 @@ func init() {
 		appendTo(ex, st, tm(a[0]), s)
 		return []Val{ex.slen(s), nilIface()}
 	})
+	reg(sb+"Len", "length of the content written so far", func(ex *Exec, a []Val, st *State, sig *types.Signature) []Val {
+		return []Val{ex.slen(st.heap.loadLeaf(Fld(tm(a[0]), builderContentField), SStr))}
+	})
 	reg(sb+"String", "the content written so far", func(ex *Exec, a []Val, st *State, sig *types.Signature) []Val {
 		return []Val{st.heap.loadLeaf(Fld(tm(a[0]), builderContentField), SStr)}
 	})
@@ -686,6 +723,7 @@ func init() {
 	reg("github.com/prometheus/common/model.ParseDuration", "(value, err) are uninterpreted functions of the text", parse2("model.parseDuration", SInt))
 	reg("time.ParseDuration", "(value, err) are uninterpreted functions of the text", parse2("time.parseDuration", SInt))
 	reg("strconv.Unquote", "(value, err) are uninterpreted functions of the text", parse2("strconv.unquote", SStr))
+	reg("github.com/prometheus/prometheus/util/strutil.Unquote", "(value, err) are uninterpreted functions of the text", parse2("strutil.unquote", SStr))
 	reg("github.com/dustin/go-humanize.ParseBytes", "(value, err) are uninterpreted functions of the text", parse2("humanize.parseBytes", SInt))
 	reg("net/netip.ParseAddr", "(value, err) are uninterpreted functions of the text", parse2("netip.parseAddr", SInt))
 	reg("time.Parse", "(value, err) are uninterpreted functions of (layout, text)", func(ex *Exec, a []Val, st *State, _ *types.Signature) []Val {
